@@ -264,6 +264,10 @@ func (v *valueProperty) Value(key interface{}) interface{} {
 // keys have been added, then this won't remove them all, it's the
 // responsibility of key/value adding code to strip out existing identical keys
 // first.
+//
+// The links of a property chain may be shared between owners (a Cell is copied
+// by value, which copies the pointer to its chain), so a link is never edited
+// in place: the links above the removed one are rebuilt.
 func stripReturnValue(ps propertySet, key interface{}) (interface{}, propertySet) {
 	top, ok := ps.(*valueProperty)
 	if !ok {
@@ -275,23 +279,10 @@ func stripReturnValue(ps propertySet, key interface{}) (interface{}, propertySet
 	if top.chain == nil || top.chain == noProperty {
 		return nil, ps
 	}
-	return stripChainReturnValue(top, top, top.chain, key)
-}
-
-func stripChainReturnValue(top, parent *valueProperty, this_ propertySet, key interface{}) (interface{}, propertySet) {
-	this, ok := this_.(*valueProperty)
-	if !ok {
-		// we break the chain if non-valueProperty are intermingled
-		return nil, top
+	val, rest := stripReturnValue(top.chain, key)
+	if rest == top.chain {
+		// nothing removed below; keep sharing the existing links
+		return val, ps
 	}
-	if this.key == key {
-		// caller ensures that this != top/parent
-		parent.chain = this.chain
-		this.chain = nil
-		return this.val, top
-	}
-	if this.chain == nil || this.chain == noProperty {
-		return nil, top
-	}
-	return stripChainReturnValue(top, this, this.chain, key)
+	return val, &valueProperty{rest, top.key, top.val}
 }
